@@ -119,6 +119,55 @@ fn vec_like(sum: &mut Summary, rng: &mut Rng, n: usize) {
     }
 }
 
+/// safe functions with extreme (type-correct) size arguments: the outcome is std's outcome -- a panic ("capacity overflow",
+/// index out of bounds) or a value -- never a wrapped size.  Matters most in release builds, where arithmetic wraps silently.
+fn extreme_args<B: Backend>(sum: &mut Summary, bk: &str) {
+    let text: &'static str = "0123456789abcdefghijklmnopqrstuvwxyzABCDEFGHIJKLMNOPQRSTUVWXYZ";
+    macro_rules! same { ($what:expr, $hip:expr, $std:expr) => {{
+        sum.evaluations += 1;
+        let what = format!("adversary extreme argument: {} bk={} prof={}", $what, bk, profile());
+        breadcrumb(&what);
+        let a: Result<Vec<u8>, String> = quiet_catch(AssertUnwindSafe(|| $hip));
+        let b: Result<Vec<u8>, String> = quiet_catch(AssertUnwindSafe(|| $std));
+        match (&a, &b) { (Ok(x), Ok(y)) if x == y => {}, (Err(_), Err(_)) => {}, _ => bad(sum, what, format!("{:?}", a.as_ref().map(|x| hex(x)).map_err(|_| "panic")), &format!("{:?}", b.as_ref().map(|x| hex(x)).map_err(|_| "panic"))) }
+    }}; }
+    for (repr, lo, hi) in [("inline", 0usize, 2usize), ("inline", 0, 12), ("borrowed", 0, 32), ("heap", 0, 32), ("heap-view", 8, 40)] {
+        let mk_b = || -> HipByt<'static, B> { match repr { "inline" => HipByt::from(&text.as_bytes()[lo..hi]), "borrowed" => HipByt::borrowed(&text.as_bytes()[lo..hi]), "heap" => HipByt::from(&text.as_bytes()[lo..hi]), _ => HipByt::<B>::from(text.as_bytes()).slice(lo..hi) } };
+        let mk_s = || -> HipStr<'static, B> { match repr { "inline" => HipStr::from(&text[lo..hi]), "borrowed" => HipStr::borrowed(&text[lo..hi]), "heap" => HipStr::from(&text[lo..hi]), _ => HipStr::<B>::from(text).slice(lo..hi) } };
+        let want = &text.as_bytes()[lo..hi]; let len = want.len();
+        for n in [usize::MAX, 1usize << 63, 1usize << 59, (1usize << 59) + 1, usize::MAX / len + 1, usize::MAX / len, (isize::MAX as usize) / len + 1] {
+            // only products beyond isize::MAX (or wrapping): std panics with "capacity overflow" before asking the allocator
+            if len.checked_mul(n).map_or(false, |t| t <= isize::MAX as usize) { continue; }
+            same!(format!("HipByt::repeat({}) on a {} value of {} bytes", n, repr, len), mk_b().repeat(n).as_slice().to_vec(), want.repeat(n));
+            same!(format!("HipStr::repeat({}) on a {} value of {} bytes", n, repr, len), mk_s().repeat(n).as_bytes().to_vec(), std::str::from_utf8(want).unwrap().repeat(n).into_bytes());
+        }
+        for n in [usize::MAX, isize::MAX as usize + 1, usize::MAX - 7] {
+            same!(format!("HipByt::truncate({}) on a {} value", n, repr), { let mut h = mk_b(); h.truncate(n); h.as_slice().to_vec() }, { let mut v = want.to_vec(); v.truncate(n); v });
+            same!(format!("HipByt::shrink_to({}) on a {} value", n, repr), { let mut h = mk_b(); h.shrink_to(n); h.as_slice().to_vec() }, { let mut v = want.to_vec(); v.shrink_to(n); v });
+            same!(format!("HipByt mutate().reserve({}) on a {} value", n, repr), { let mut h = mk_b(); h.mutate().reserve(n); h.as_slice().to_vec() }, { let mut v = want.to_vec(); v.reserve(n); v });
+        }
+    }
+    for n in [usize::MAX, isize::MAX as usize + 1] {
+        same!(format!("HipByt::with_capacity({})", n), HipByt::<B>::with_capacity(n).as_slice().to_vec(), Vec::<u8>::with_capacity(n));
+        same!(format!("HipStr::with_capacity({})", n), HipStr::<B>::with_capacity(n).as_bytes().to_vec(), String::with_capacity(n).into_bytes());
+    }
+    // vectors: indices and sizes next to usize::MAX
+    let items: Vec<u8> = (1..=6).collect();
+    for n in [usize::MAX, usize::MAX - 1, isize::MAX as usize + 1, 7] {
+        same!(format!("ThinVec::insert({}, x) on 6 elements", n), { let mut v: ThinVec<u8> = ThinVec::new(); for x in &items { v.push(*x); } v.insert(n, 9); v.as_slice().to_vec() }, { let mut v = items.clone(); v.insert(n, 9); v });
+        same!(format!("ThinVec::remove({}) on 6 elements", n), { let mut v: ThinVec<u8> = ThinVec::new(); for x in &items { v.push(*x); } v.remove(n); v.as_slice().to_vec() }, { let mut v = items.clone(); v.remove(n); v });
+        same!(format!("ThinVec::swap_remove({}) on 6 elements", n), { let mut v: ThinVec<u8> = ThinVec::new(); for x in &items { v.push(*x); } v.swap_remove(n); v.as_slice().to_vec() }, { let mut v = items.clone(); v.swap_remove(n); v });
+        same!(format!("ThinVec::split_off({}) on 6 elements", n), { let mut v: ThinVec<u8> = ThinVec::new(); for x in &items { v.push(*x); } let w = v.split_off(n); w.as_slice().to_vec() }, { let mut v = items.clone(); v.split_off(n) });
+        same!(format!("ThinVec::truncate({}) on 6 elements", n), { let mut v: ThinVec<u8> = ThinVec::new(); for x in &items { v.push(*x); } v.truncate(n); v.as_slice().to_vec() }, { let mut v = items.clone(); v.truncate(n); v });
+        same!(format!("InlineVec::insert({}, x) on 6 elements", n), { let mut v: InlineVec<u8, 16> = InlineVec::new(); for x in &items { v.push(*x); } v.insert(n, 9); v.as_slice().to_vec() }, { let mut v = items.clone(); v.insert(n, 9); v });
+        same!(format!("InlineVec::remove({}) on 6 elements", n), { let mut v: InlineVec<u8, 16> = InlineVec::new(); for x in &items { v.push(*x); } v.remove(n); v.as_slice().to_vec() }, { let mut v = items.clone(); v.remove(n); v });
+        same!(format!("InlineVec::swap_remove({}) on 6 elements", n), { let mut v: InlineVec<u8, 16> = InlineVec::new(); for x in &items { v.push(*x); } v.swap_remove(n); v.as_slice().to_vec() }, { let mut v = items.clone(); v.swap_remove(n); v });
+        same!(format!("InlineVec::split_off({}) on 6 elements", n), { let mut v: InlineVec<u8, 16> = InlineVec::new(); for x in &items { v.push(*x); } let w = v.split_off(n); w.as_slice().to_vec() }, { let mut v = items.clone(); v.split_off(n) });
+        same!(format!("InlineVec::truncate({}) on 6 elements", n), { let mut v: InlineVec<u8, 16> = InlineVec::new(); for x in &items { v.push(*x); } v.truncate(n); v.as_slice().to_vec() }, { let mut v = items.clone(); v.truncate(n); v });
+        same!(format!("ThinVec::reserve({}) on 6 elements", n), { let mut v: ThinVec<u8> = ThinVec::new(); for x in &items { v.push(*x); } if n > 100 { v.reserve(n); } v.as_slice().to_vec() }, { let mut v = items.clone(); if n > 100 { v.reserve(n); } v });
+    }
+}
+
 pub fn run(_out_dir: &Path, tier: &str, seed: u64, _rest: &[String]) {
     silence_panics();
     let mut sum = Summary::default();
@@ -128,6 +177,7 @@ pub fn run(_out_dir: &Path, tier: &str, seed: u64, _rest: &[String]) {
     bytes_like::<Rc>(&mut sum, "rc", &mut rng, n);
     bytes_like::<Unique>(&mut sum, "unique", &mut rng, n);
     vec_like(&mut sum, &mut rng, n);
+    extreme_args::<Arc>(&mut sum, "arc"); extreme_args::<Rc>(&mut sum, "rc"); extreme_args::<Unique>(&mut sum, "unique");
     sum.nontrivial = sum.evaluations;
     sum.samples.push(jstr("RangeBounds implementations answering differently at each query x {HipByt, HipStr} x {slice, try_slice} x {inline, borrowed, heap, heap-view} x 3 backends; {ThinVec, InlineVec} x {drain, extend_from_within}"));
     sum.notes.push(format!("profile={} allocator_errors={}", profile(), crate::alloc::error_detail()));
